@@ -30,13 +30,36 @@ def run_case(data):
     s = Solo(client)
     peer_frame = ch.pick([16384, 16384, 2**24 - 1, 70000])
     iws = ch.pick([65535, 65535, 0, 1, 100, 20000, 200000])
-    s.start([(wire.S_MAX_FRAME_SIZE, peer_frame), (wire.S_INITIAL_WINDOW_SIZE, iws)])
+    upgraded = (not client) and ch.chance(40)
+    if upgraded:
+        # h2c upgrade: the client's settings arrive in the HTTP2-Settings header first; its INITIAL_WINDOW_SIZE
+        # governs stream windows only, the connection window starts at 65535 as always (RFC 7540 s6.9.2)
+        import base64
+        import struct
+        payload = struct.pack('>HI', wire.S_MAX_FRAME_SIZE, peer_frame) + struct.pack('>HI', wire.S_INITIAL_WINDOW_SIZE, iws)
+        s.call('initiate_upgrade_connection', base64.urlsafe_b64encode(payload).rstrip(b'='))
+        s.note_peer_settings([(wire.S_MAX_FRAME_SIZE, peer_frame)])
+        o = s.feed(wire.PREFACE + wire.settings([(wire.S_MAX_FRAME_SIZE, peer_frame), (wire.S_INITIAL_WINDOW_SIZE, iws)]) +
+                   wire.settings(ack=True))
+        if not o.ok:
+            r.violate('C03:harness:upgrade-handshake-failed', o.brief())
+            return r
+        r.labels.add('h2c-upgrade')
+    else:
+        s.start([(wire.S_MAX_FRAME_SIZE, peer_frame), (wire.S_INITIAL_WINDOW_SIZE, iws)])
     conn = 65535
     streams = {}      # sid -> [window, open]
     closed = {}       # sid -> window of streams the library may still hold
     reserved = {}     # promised sid -> window (server only; reserved (local) until the response headers go out)
     next_sid = 1
     next_push = 2
+    if upgraded:
+        o = s.call('send_headers', 1, RESP)
+        if not o.ok:
+            r.violate('C03:harness:upgrade-response-failed', o.brief())
+            return r
+        streams[1] = [iws, True]
+        next_sid = 3
     sent_any = iws_changed_after_data = padded = dead = False
     r.step('role', 'client' if client else 'server', 'peer max frame', peer_frame, 'iws', iws)
 
@@ -103,7 +126,7 @@ def run_case(data):
         live = [sid for sid, st in streams.items() if st[1]]
         op = ch.weighted([(3, 'open'), (10, 'send'), (3, 'wu-stream'), (3, 'wu-conn'), (3, 'iws'),
                           (1, 'frame-size'), (1, 'end'), (1, 'probe'), (1, 'wu-overflow'),
-                          (2, 'push'), (2, 'answer-push'), (1, 'wu-reserved')])
+                          (2, 'push'), (2, 'answer-push'), (1, 'wu-reserved'), (2, 'send-refused')])
         if op in ('push', 'answer-push', 'wu-reserved') and client:
             op = 'send'
         where = 'step %d %s' % (stepno, op)
@@ -160,6 +183,25 @@ def run_case(data):
                 r.violate('C03:window-update-rejected:reserved:%s' % o.exc_name, '')
                 break
             reserved[sid] += inc
+        elif op == 'send-refused':
+            # DATA on a stream that cannot carry it (we ended it, or it is promised and not yet answered): the
+            # call raises and, like every refused send, leaves both windows of everybody else untouched
+            cands = [x for x, st in streams.items() if not st[1]] + sorted(reserved)
+            if not cands:
+                continue
+            sid = ch.pick(cands)
+            n = ch.pick([1, 1000, 16384])
+            o = s.call('send_data', sid, b'r' * n, end_stream=ch.bool())
+            r.step('send_data on a stream that cannot send', sid, n, o.brief())
+            if o.ok:
+                r.violate('C03:send-on-ended-or-reserved-stream-accepted', repr(o.frames)[:120])
+                break
+            if o.out:
+                r.violate('C03:refused-send-emitted', o.out.hex()[:60])
+                break
+            # (a refused local call closes the stream it addressed - known finding K03: forget that stream)
+            reserved.pop(sid, None)
+            r.labels.add('refused-send')
         elif op == 'send':
             if not live:
                 continue
@@ -167,9 +209,11 @@ def run_case(data):
             w = min(conn, streams[sid][0])
             pad = ch.pick([None, None, None, 0, 1, 255, ch.int(0, 255)])
             over = 0 if pad is None else pad + 1
-            kind = ch.weighted([(4, 'rand'), (2, 'zero'), (1, 'one'), (2, 'w-1'), (3, 'w'), (3, 'w+1')])
+            kind = ch.weighted([(4, 'rand'), (2, 'zero'), (1, 'one'), (2, 'w-1'), (3, 'w'), (3, 'w+1'), (2, 'frame-edge')])
             n = {'rand': ch.int(0, max(0, min(w, peer_frame, 70000))), 'zero': 0, 'one': 1, 'w-1': w - 1 - over,
-                 'w': w - over, 'w+1': w + 1 - over}[kind]
+                 'w': w - over, 'w+1': w + 1 - over,
+                 # payload within the frame-size limit, payload plus padding around it
+                 'frame-edge': peer_frame - ch.int(0, over)}[kind]
             if n < 0:
                 n = 0
             if n > 200000:
